@@ -132,6 +132,7 @@ class SimConn(object):
         self.replies = []         # client control frames to deliver (pong/close)
         self.missed_pings = []
         self.held = b""           # client->server bytes queued but not yet delivered
+        self.held_msgs = []       # commands in flight: delivered together with the next send
         self.frames = []          # all data frames emitted by the server to this conn
         self.last = {}            # last value told per frame type (claimed/allocated)
         self.st = None
@@ -693,6 +694,12 @@ class World(object):
         msgs: list of JSON-able objects (one websocket text frame each), all in
         one TCP segment unless seg (list of cut offsets as fractions) splits it."""
         c = self.conns.get(cid)
+        if c is not None and c.held_msgs:
+            # commands that were in flight (delayed) arrive together with this one
+            msgs = c.held_msgs + list(msgs)
+            c.held_msgs = []
+            kind = "batch"
+            self.count("fault_delayed_delivery")
         ev = self.begin(kind, step=step, conn=cid, msg=msgs[0] if len(msgs) == 1 else None)
         if len(msgs) != 1:
             ev.sends = list(msgs)
@@ -722,7 +729,7 @@ class World(object):
         c = self.conns.get(cid)
         if c is None or not c.alive:
             return
-        c.held += b"".join(wf.encode_text(m, c.mask()) for m in msgs)
+        c.held_msgs += list(msgs)
 
     def drop(self, cid, how, step=None):
         c = self.conns.get(cid)
